@@ -3,6 +3,7 @@ package main
 // C08: the SQL schema is a faithful image of the table structs.
 
 import (
+	"sort"
 	"fmt"
 	"go/ast"
 	"go/constant"
@@ -15,7 +16,7 @@ func init() { register("C08", "other", checkC08) }
 
 func checkC08(w *World, r *Result) {
 	r.Explanation = "Decides structural necessary conditions: EXH-c the Go->SQL mappings (newType over node kinds, typeConstraint over SQL types, basicTypeName/nameFromKind over basic kinds) handle every implementation/kind or refuse it with an explicit message; AGR-C08c NewTable appends one column per field in field order and skips exactly 'neither guard nor exported'; AGR-C08k isComposite accepts exactly integer basics and integer enums; AGR-C08f the self-reference exclusion of foreign keys applies to ID-typed detection only, a tagged field is a foreign key whenever the tag is present, and ForeignKeys/columns loops have no other filter; AGR-C08b each constraint family is produced by an unfiltered loop over the whole collection of the iterated table (foreign keys, guards by their own predicate, custom constraints), one CREATE TABLE per selected table; FLW-C08a the ON DELETE action, the guard value and the iterated table's name flow into the text of their constraint; AGR-C05d every table position in the DDL is filled by SQLTableName and column positions by the Go field name; AGR-C08p the primary column is decided by Table.Primary in both the DDL and the CRUD generator; DECL-ID the ID of every SQL declaration mentions every variable its content depends on. Does not decide: the Go->SQL type table itself (which kinds map to smallint), nullability choices and CHECK contents as values."
-	r.Rules = []string{"EXH-c", "AGR-C08c", "AGR-C08k", "AGR-C08f", "AGR-C08t", "AGR-C08b", "FLW-C08a", "AGR-C05d", "AGR-C08p", "AGR-C08i", "AGR-C08n", "DECL-ID", "CONST-EXACT", "UTF8-SLICE", "ALIAS-APPEND", "PRINTF", "MUT-AN"}
+	r.Rules = []string{"EXH-c", "AGR-C08c", "AGR-C08k", "AGR-C08f", "AGR-C08t", "AGR-C08b", "FLW-C08a", "AGR-C05d", "AGR-C08p", "AGR-C08i", "AGR-C08n", "AGR-C08l", "AGR-C04e", "DECL-ID", "CONST-EXACT", "UTF8-SLICE", "ALIAS-APPEND", "PRINTF", "MUT-AN"}
 	mutAnRule(w, r, func(rel string) bool { return rel == "generator/sql" })
 	printfRule(w, r, "generator/sql")
 	aliasAppendRule(w, r, func(rel string) bool { return rel == "analysis/sql" || rel == "generator/sql" || rel == "generator" })
@@ -23,6 +24,15 @@ func checkC08(w *World, r *Result) {
 	checkNewTable(w, r)
 	checkIsComposite(w, r)
 	checkNewTypeNode(w, r)
+	checkSiblingLiterals(w, r)
+	// the enum CHECK of a column lists the enum's constant values (rule shared with C04)
+	subE := &Result{}
+	checkUnionEnumValidators(w, subE)
+	for _, o := range subE.Obs {
+		if o.Rule == "AGR-C04e" {
+			r.add(o)
+		}
+	}
 	checkForeignKeys(w, r)
 	checkTableIDThreshold(w, r)
 	checkConstraintFamilies(w, r)
@@ -629,7 +639,64 @@ func checkPrimaryAgreement(w *World, r *Result) {
 		return true
 	})
 	if ncmp == 0 {
-		Undecided("AGR-C08i: Table.Primary has no equality comparison")
+		// Primary() returns a stored index: it must be a position in Columns -- len(Columns) at the time the column is
+		// appended, or the key of a loop over Columns -- not the key of a loop over another list that skips elements
+		var field *types.Var
+		ast.Inspect(prim.Decl.Body, func(x ast.Node) bool {
+			if ret, ok := x.(*ast.ReturnStmt); ok && len(ret.Results) == 1 {
+				if sel, ok := ast.Unparen(ret.Results[0]).(*ast.SelectorExpr); ok {
+					field, _ = prim.Pkg.TypesInfo.Uses[sel.Sel].(*types.Var)
+				}
+			}
+			return true
+		})
+		if field == nil {
+			Undecided("AGR-C08i: Table.Primary neither compares field names nor returns a stored index")
+		}
+		nst := 0
+		for _, fi := range sortedFuncs(w) {
+			if fi.Pkg != prim.Pkg || fi.Decl.Body == nil {
+				continue
+			}
+			finfo := fi.Pkg.TypesInfo
+			ast.Inspect(fi.Decl.Body, func(x ast.Node) bool {
+				as, ok := x.(*ast.AssignStmt)
+				if !ok || len(as.Lhs) != 1 || len(as.Rhs) != 1 {
+					return true
+				}
+				sel, ok := ast.Unparen(as.Lhs[0]).(*ast.SelectorExpr)
+				if !ok || finfo.Uses[sel.Sel] != types.Object(field) {
+					return true
+				}
+				if tv := finfo.Types[as.Rhs[0]]; tv.Value != nil {
+					return true // the "not found" constant
+				}
+				nst++
+				good, why := false, "the stored primary index is `"+es(as.Rhs[0])+"`, which is not a position in Columns"
+				if call, ok := ast.Unparen(as.Rhs[0]).(*ast.CallExpr); ok && isBuiltinCall(finfo, call, "len") && strings.HasSuffix(es(call.Args[0]), ".Columns") {
+					good = true
+				}
+				if id := identOf(as.Rhs[0]); id != nil {
+					ast.Inspect(fi.Decl.Body, func(y ast.Node) bool {
+						rs, ok := y.(*ast.RangeStmt)
+						if !ok || identOf(rs.Key) == nil || finfo.Defs[identOf(rs.Key)] != objOf(finfo, id) {
+							return true
+						}
+						if strings.HasSuffix(es(rs.X), ".Columns") {
+							good = true
+						} else {
+							why = "the stored primary index is the position in " + es(rs.X) + ", while every consumer uses it as a position in Columns: the loop skips fields that are not columns, so after a skipped field (an unexported field before Id) the index points at the wrong column"
+						}
+						return true
+					})
+				}
+				r.cond(good, "AGR-C08i", fi.Name, es(as.Lhs[0])+" = "+es(as.Rhs[0]), w.Pos(as.Pos()), "a position in Columns", why)
+				return true
+			})
+		}
+		if nst == 0 {
+			Undecided("AGR-C08i: the stored primary index is never assigned")
+		}
 	}
 	for _, fi := range sortedFuncs(w) {
 		if w.Rel(fi.Obj.Pkg()) != "analysis/sql" || fi.Decl.Body == nil {
@@ -791,4 +858,75 @@ func checkNewTypeNode(w *World, r *Result) {
 	if n < 5 {
 		Undecided("AGR-C08n: only %d SQL type literals found in newType", n)
 	}
+}
+
+// checkSiblingLiterals (AGR-C08l): the SQL types newType builds inside one branch (e.g. the nullable-wrapper
+// branch) are siblings: composite literals of one type there set the same fields. A field set by some and left at
+// its zero value by another (a stored `nullable` flag) makes that one case behave like the non-wrapper case.
+func checkSiblingLiterals(w *World, r *Result) {
+	fi := w.MustFunc("analysis/sql.newType")
+	info := fi.Pkg.TypesInfo
+	type lit struct {
+		node *ast.CompositeLit
+		keys []string
+	}
+	groups := map[string][]lit{} // type + innermost enclosing if/case position -> literals
+	var stack []ast.Node
+	ast.Inspect(fi.Decl.Body, func(x ast.Node) bool {
+		if x == nil {
+			stack = stack[:len(stack)-1]
+			return false
+		}
+		stack = append(stack, x)
+		cl, ok := x.(*ast.CompositeLit)
+		if !ok || info.TypeOf(cl) == nil {
+			return true
+		}
+		tn := info.TypeOf(cl).String()
+		if !strings.Contains(tn, "analysis/sql.") {
+			return true
+		}
+		// outermost enclosing if statement inside the case clause: the "branch family"
+		branch := ""
+		for i := len(stack) - 1; i >= 0; i-- {
+			if _, ok := stack[i].(*ast.CaseClause); ok {
+				break
+			}
+			if is, ok := stack[i].(*ast.IfStmt); ok {
+				branch = w.Pos(is.Pos())
+			}
+		}
+		if branch == "" {
+			return true
+		}
+		var keys []string
+		for _, el := range cl.Elts {
+			if kv, ok := el.(*ast.KeyValueExpr); ok {
+				keys = append(keys, es(kv.Key))
+			}
+		}
+		sort.Strings(keys)
+		groups[tn+"@"+branch] = append(groups[tn+"@"+branch], lit{cl, keys})
+		return true
+	})
+	n := 0
+	for key, ls := range groups {
+		if len(ls) < 2 {
+			continue
+		}
+		// the richest key set is the reference
+		ref := ls[0].keys
+		for _, l := range ls {
+			if len(l.keys) > len(ref) {
+				ref = l.keys
+			}
+		}
+		for _, l := range ls {
+			n++
+			r.cond(setEq(l.keys, ref), "AGR-C08l", fi.Name, "sibling literal "+es(l.node.Type)+"{"+strings.Join(l.keys, ", ")+"}", w.Pos(l.node.Pos()),
+				"sets the same fields as the other literals of its branch",
+				"this literal sets {"+strings.Join(l.keys, ", ")+"} while a sibling in the same branch ("+key[strings.Index(key, "@")+1:]+") sets {"+strings.Join(ref, ", ")+"}: the field left out keeps its zero value, so this case behaves differently from its siblings (a nullable date wrapper is not nullable)")
+		}
+	}
+	_ = n
 }
